@@ -443,7 +443,7 @@ def run_robot(c, job, opts=None):
     if nf:
         sites = fault_sites(comps, hooks)
         if cfg.get("fault_sites"):
-            sites = [s for s in sites if s in cfg["fault_sites"]]
+            sites = list(cfg["fault_sites"])
         plan = []
         avail = [None] + sites
         for j in range(nf):
